@@ -120,7 +120,7 @@ def serial_patched() -> Iterator[None]:
 # ---------------------------------------------------------------------- clocks
 @contextlib.contextmanager
 def clocks_patched(
-    *, transport_dt_now: bool = True, entity_dt: bool = True, perf_counter: bool = False
+    *, transport_dt_now: bool = True, entity_dt: bool = True, perf_counter: bool = False, transport_dt: bool = False
 ) -> Iterator[None]:
     """Bind the wall clocks the library reads to the virtual clock of the running loop.
 
@@ -153,6 +153,8 @@ def clocks_patched(
                     stack.enter_context(patch(f"{mod}.dt", VDT))
         if perf_counter:
             stack.enter_context(patch("ramses_tx.transport.perf_counter", vperf))
+        if transport_dt:  # the transport's own datetime reads (its Tx-rate statistics window)
+            stack.enter_context(patch("ramses_tx.transport.dt", VDT))
         yield
 
 
